@@ -18,6 +18,8 @@ Component.updateNumberDensities makes them (update the dict, then set both `assi
 Trusted: pickle round trip of plain data = structurally equal disjoint copy (engine model `pickle`);
 `x & mask`, `~mask` with concrete masks (exact integer semantics).
 """
+import pickle
+
 from spec import *
 
 ParameterCollection = repo("armi.reactor.parameters.parameterCollections:ParameterCollection")
@@ -56,6 +58,11 @@ def mk_coll(prior, a, t, p, n):
     return new(PC3, _backup=prior, _hist={}, assigned=a, readOnly=False, _p_temperatureInC=t, _p_power=p, _p_numberDensities={"U235": n})
 
 
+def same_bytes(a, b):
+    """the back-up is an immutable byte string: symbolically the very object, natively equal bytes"""
+    return (a == b) if NATIVE else same(a, b)
+
+
 def keepset(defs, k0, k1, k2):
     ks = [k0, k1, k2]
     return set([defs[i] for i in range(3) if ks[i]])
@@ -68,7 +75,7 @@ def collection_backup_step_restores_all_but_the_kept(a0: int, f0: int, f1: int, 
     changed in place), restoreBackup(keep) for EVERY keep-set: parameters not kept have their entry value, kept ones
     their new value; the earlier back-up is back in place; flags return unless a kept value changed"""
     defs = mk_class(f0, f1, f2)
-    prior = b"pickle-of-the-enclosing-scope" if hasPrior else None
+    prior = pickle.dumps(["state of the enclosing scope"]) if hasPrior else None
     pc = mk_coll(prior, a0, t0, p0, n0)
     pc.backUp()
     assert (pc.assigned & SINCE_BACKUP) == 0, "nothing is marked as assigned since this back-up"
@@ -94,7 +101,7 @@ def collection_backup_step_restores_all_but_the_kept(a0: int, f0: int, f1: int, 
         assert pc._p_numberDensities["U235"] == n1, "kept and re-assigned / updated in place: the new value survives"
     else:
         assert pc._p_numberDensities["U235"] == n0
-    assert (pc._backup is None) if not hasPrior else (pc._backup == prior), "the enclosing scope's back-up is in place again"
+    assert (pc._backup is None) if not hasPrior else same_bytes(pc._backup, prior), "the enclosing scope's back-up is in place again"
     changedKept = (k0 and setT and t1 != t0) or (k1 and setP and p1 != p0) or (k2 and (setN or mutN) and n1 != n0)
     assert implies(not changedKept, pc.assigned == a0), "assigned mask of the collection as at entry"
     assert implies(changedKept, (pc.assigned & SINCE_BACKUP) != 0), "a kept change stays marked as assigned"
@@ -107,7 +114,7 @@ def nested_collection_backups_unwind_last_in_first_out(a0: int, t0: float, p0: f
     """outer scope { assign T,P ; inner scope { assign T,P, number density in place } keep-set Ki } keep-set Ko,
     for every pair of keep-sets over {T, P}"""
     defs = mk_class(0, 0, 0)
-    prior = b"enclosing" if hasPrior else None
+    prior = pickle.dumps(["state of the enclosing scope"]) if hasPrior else None
     pc = mk_coll(prior, a0, t0, p0, n0)
     pc.backUp()
     defs[0].__set__(pc, t1)
@@ -124,7 +131,7 @@ def nested_collection_backups_unwind_last_in_first_out(a0: int, t0: float, p0: f
     assert pc._p_temperatureInC == (ti if ko0 else t0), "outer scope: entry state, kept ones as they were when it ended"
     assert pc._p_power == (pi if ko1 else p0)
     assert pc._p_numberDensities["U235"] == n0
-    assert (pc._backup is None) if not hasPrior else (pc._backup == prior), "and the enclosing back-up chain is intact"
+    assert (pc._backup is None) if not hasPrior else same_bytes(pc._backup, prior), "and the enclosing back-up chain is intact"
     assert implies(not ((ko0 and ti != t0) or (ko1 and pi != p0)), pc.assigned == a0)
 
 
